@@ -317,7 +317,7 @@ func checkC11(p *Prog, r *Report) {
 	}
 
 	// ---- R11.4 close ------------------------------------------------------------------------
-	r.Rule("R11.4", "Closing a notifier closes its done channel once, under the mutex; a graceful close waits for the drainers on every path (also after an earlier plain close).", 3)
+	r.Rule("R11.4", "Closing a notifier closes its done channel once, under the mutex; a graceful close waits for the drainers on every path (also after an earlier plain close); GracefulClose is the graceful and Close the plain mode.", 3)
 	if f := p.Fn("handlerNotifier.Close"); r.Anchor("handlerNotifier.Close", f != nil) {
 		n := 0
 		for _, c := range p.CallsTo(f, false, "builtin.close") {
